@@ -64,6 +64,12 @@ class PyFile:
         self.dotted = dotted
         self.uid = 0
         self.consts = []
+        # functions of this file that bodies may call, INCLUDING ones defined further down (resolved at call time);
+        # `rank` keeps the call relation acyclic: a function only calls functions of lower rank
+        self.callable = []
+        self.rank = {}
+        self.cur_rank = None
+        self.factories = []
 
     def emit(self, s):
         self.lines.append(s)
@@ -87,8 +93,8 @@ class PyFile:
                     mine.append(v)
                 if e.startswith(cur):
                     cur = v
-            elif r < 0.50 and not leaf and (self.funcs or self.imported):
-                callee = rng.choice(self.funcs + self.imported)
+            elif r < 0.50 and not leaf and (self.callees() or self.imported):
+                callee = rng.choice(self.callees() + self.imported)
                 v = pool.pop() if pool else rng.choice(mine)
                 self.emit(pad + "%s = %s(%s)" % (v, callee, cur))
                 if v not in mine:
@@ -112,7 +118,7 @@ class PyFile:
             elif r < 0.86 and not leaf and self.classes:
                 k = rng.choice(self.classes)
                 v = pool.pop() if pool else rng.choice(mine)
-                self.emit(pad + "%s = %s()" % (v, k[0]))
+                self.emit(pad + "%s = %s" % (v, k[0]))
                 if v not in mine:
                     mine.append(v)
                 w = pool.pop() if pool else rng.choice(mine)
@@ -162,6 +168,19 @@ class PyFile:
                 self.emit(pad + "sink(%s)" % cur)
         self.emit(pad + "return %s" % cur)
 
+    def callees(self):
+        """functions the body being generated may call: defined above, or (forward reference) further down"""
+        if self.cur_rank is None:
+            return list(self.funcs)
+        return [f for f in self.callable if self.rank.get(f, 1 << 30) < self.cur_rank]
+
+    def plan(self, names):
+        """announce the callable functions of the file before any body is generated"""
+        self.callable = list(names)
+        order = list(names)
+        self.rng.shuffle(order)
+        self.rank = {f: i for i, f in enumerate(order)}
+
     def func(self, name, leaf=False, nested=False):
         """`nested`: the body may define and call a nested function.  Only functions that nobody calls get one: a
         function that contains a nested definition and is analysed as a callee makes lian's reported flow set depend on
@@ -172,26 +191,83 @@ class PyFile:
         if self.consts and not leaf and rng.random() < 0.3:
             sig += ", lim=%s" % rng.choice(self.consts)
         self.emit("def %s(%s):" % (name, sig))
+        self.cur_rank = self.rank.get(name, 1 << 30) if self.callable else None
         self.body(1, params, 0, leaf, allow_nested=nested)
+        self.cur_rank = None if not self.callable else (1 << 30)
         self.emit("")
         if not nested:
             self.funcs.append(name)
 
-    def klass(self, name):
+    def klass(self, name, base=None, inherited=(), ind=0, register=True, n_methods=None, avoid=()):
+        """a class (optionally a subclass of `base`, whose methods `inherited` its instances can be asked for);
+        returns the list of methods callable on an instance"""
         rng = self.rng
-        self.emit("class %s:" % name)
+        pad = "    " * ind
+        self.emit(pad + ("class %s(%s):" % (name, base) if base else "class %s:" % name))
         if rng.random() < 0.5:
-            self.emit("    limit = %d" % rng.randint(1, 9))
-        ms = rng.sample(METHODS, rng.randint(1, 3))
+            self.emit(pad + "    limit = %d" % rng.randint(1, 9))
+        avail = [m for m in METHODS if m not in inherited and m not in avoid]
+        ms = rng.sample(avail, min(len(avail), n_methods or rng.randint(1, 3)))
+        if not ms:
+            self.emit(pad + "    pass")
+        # methods call imported leaf helpers only: with forward references between the functions of the file a method
+        # calling them could close a call cycle through a function that instantiates the class
+        saved, self.cur_rank = self.cur_rank, (-1 if self.callable else self.cur_rank)
         for m in ms:
-            if rng.random() < 0.2:
-                self.emit("    @staticmethod")
-                self.emit("    def %s(tp):" % m)
+            if rng.random() < 0.2 and not base and ind == 0:
+                self.emit(pad + "    @staticmethod")
+                self.emit(pad + "    def %s(tp):" % m)
             else:
+                self.emit(pad + "    def %s(self, tp):" % m)
+            self.body(ind + 2, ["tp"], 1, False, allow_nested=False)
+        self.cur_rank = saved
+        if ind == 0:
+            self.emit("")
+        allm = list(inherited) + ms
+        if register:
+            # prefer asking an instance of a subclass for an INHERITED method
+            self.classes.append((name + "()", list(inherited) * 2 + ms if inherited else ms))
+        return allm
+
+    def family(self, base, sub, subsub, factory, local, factory_first):
+        """class `base`; a factory function whose body declares a local subclass of the module-level base and returns an
+        instance (placed next to the base, before or after it: the two are independent top-level definitions); a
+        top-level subclass; sometimes a second level"""
+        rng = self.rng
+
+        def emit_factory(inherited):
+            self.emit("def %s():" % factory)
+            self.klass(local, base=base, inherited=inherited, ind=1, register=False, n_methods=1)
+            self.emit("    return %s()" % local)
+            self.emit("")
+
+        if factory_first:
+            # methods of the base are not known yet: fix them first
+            bm = rng.sample(METHODS, 2)
+            emit_factory(bm)
+            self.emit("class %s:" % base)
+            saved, self.cur_rank = self.cur_rank, (-1 if self.callable else self.cur_rank)
+            for m in bm:
                 self.emit("    def %s(self, tp):" % m)
-            self.body(2, ["tp"], 1, False, allow_nested=False)
-        self.emit("")
-        self.classes.append((name, ms))
+                self.body(2, ["tp"], 1, False, allow_nested=False)
+            self.cur_rank = saved
+            self.emit("")
+            self.classes.append((base + "()", bm))
+        else:
+            bm = self.klass(base, n_methods=2)
+            emit_factory(bm)
+        self.classes.append((factory + "()", list(bm)))          # only inherited methods are asked for
+        self.factories.append((factory + "()", list(bm)))
+        later = []
+        sm = None
+        if sub:
+            later.append(lambda: later_sub())
+        def later_sub():
+            nonlocal sm
+            sm = self.klass(sub, base=base, inherited=bm)
+            if subsub:
+                self.klass(subsub, base=sub, inherited=sm)
+        return later
 
     def toplevel(self):
         rng = self.rng
@@ -206,69 +282,111 @@ class PyFile:
                 f = rng.choice(self.funcs)
                 self.emit("r%d = %s(tv)" % (i, f))
                 self.emit("sink(r%d)" % i)
-        if self.classes and rng.random() < 0.7:
-            k = rng.choice(self.classes)
-            self.emit("ob = %s()" % k[0])
-            self.emit("rk = ob.%s(tv)" % rng.choice(k[1]))
-            self.emit("sink(rk)")
+        for j, k in enumerate(self.factories):
+            # an INHERITED method asked of the instance a factory returns (its class is local to the factory)
+            self.emit("fo%d = %s" % (j, k[0]))
+            self.emit("rf%d = fo%d.%s(tv)" % (j, j, rng.choice(k[1])))
+            self.emit("sink(rf%d)" % j)
+        if self.classes:
+            for j, k in enumerate(rng.sample(self.classes, min(len(self.classes), rng.randint(1, 2)))):
+                self.emit("ob%d = %s" % (j, k[0]))
+                self.emit("rk%d = ob%d.%s(tv)" % (j, j, rng.choice(k[1])))
+                self.emit("sink(rk%d)" % j)
 
     def text(self):
         return "\n".join(self.lines) + "\n"
 
 
+UTIL_NAMES = ["util", "lib", "helpers", "kit", "zeta", "alpha", "common_u"]
+SVC_NAMES = ["svc", "serv", "beta", "mid", "layer"]
+MAIN_NAMES = ["main", "app", "run_all", "gamma", "omega", "cli"]
+BASES = ["Base", "Core", "Root"]
+
+
 def gen_py_project(rng, size=8):
-    """2-3 Python files: util.py (leaf helpers), svc.py (uses util), main.py (uses both; top-level code)"""
+    """2-3 Python files: <util>.py (leaf helpers), <svc>.py (uses util), <main>.py (uses both; top-level code).
+    The file names vary from project to project: lian numbers the units in directory-listing order, and which of an
+    importing / re-exporting / defining unit comes first matters to import resolution."""
     names = list(FUNCS)
     rng.shuffle(names)
     cls = list(CLASSES)
     rng.shuffle(cls)
     files = {}
+    un, sn, mn = rng.choice(UTIL_NAMES), rng.choice(SVC_NAMES), rng.choice(MAIN_NAMES)
     dotted = rng.choice([None, "os.path", "os.path"])
-    # util.py
-    u = PyFile(rng, "util.py")
+    u = PyFile(rng, un + ".py")
     ufuncs = [names.pop() for _ in range(rng.randint(2, 3))]
     for f in ufuncs:
         u.func(f, leaf=True)
     u.func("entry", leaf=True, nested=True)
-    files["util.py"] = u.text()
-    exported = list(ufuncs)
+    files[un + ".py"] = u.text()
     three = rng.random() < 0.6
     sfuncs = []
+    sclass = None
     if three:
-        s = PyFile(rng, "svc.py", leafs_from=ufuncs[:2])
-        s.emit("from util import %s" % ", ".join(ufuncs[:2]))
+        s = PyFile(rng, sn + ".py", leafs_from=ufuncs[:2])
+        s.emit("from %s import %s" % (un, ", ".join(ufuncs[:2])))
         s.emit("")
-        for _ in range(rng.randint(1, 2)):
-            f = names.pop()
+        planned = [names.pop() for _ in range(rng.randint(1, 2))]
+        s.plan(planned)
+        for f in planned:
             s.func(f)
             sfuncs.append(f)
         if rng.random() < 0.6:
-            s.klass(cls.pop())
-        files["svc.py"] = s.text()
-    m = PyFile(rng, "main.py", leafs_from=[ufuncs[-1]] + sfuncs[:1], dotted=dotted)
+            sclass = cls.pop()
+            smeth = s.klass(sclass)
+        files[sn + ".py"] = s.text()
+    m = PyFile(rng, mn + ".py", leafs_from=[ufuncs[-1]] + sfuncs[:1], dotted=dotted)
     m.emit("import os")
     if dotted:
         m.emit("import %s" % dotted)
-    m.emit("from util import %s" % ufuncs[-1])
+    m.emit("from %s import %s" % (un, ufuncs[-1]))
     if sfuncs:
-        m.emit("from svc import %s" % sfuncs[0])
+        m.emit("from %s import %s" % (sn, ", ".join(sfuncs[:1] + ([sclass] if sclass and rng.random() < 0.5 else []))))
     m.emit("")
     if rng.random() < 0.6:
         m.emit("LIMIT = %d" % rng.randint(1, 9))
         m.consts.append("LIMIT")
         m.emit("")
-    k = 0
+    # what will be defined, in which textual order
+    items = []
     for i in range(size):
         r = rng.random()
-        if r < 0.2 and cls:
-            m.klass(cls.pop())
-        elif r < 0.45:
-            m.func(names.pop() if names else "fn%d" % i, leaf=True)
+        if r < 0.15 and cls:
+            items.append(("class", cls.pop()))
+        elif r < 0.40:
+            items.append(("leaf", names.pop() if names else "fn%d" % i))
         else:
-            m.func(names.pop() if names else "fn%d" % i)
+            items.append(("func", names.pop() if names else "fn%d" % i))
+    m.plan([n for k, n in items if k in ("leaf", "func")])
+    fam_later = []
+    if rng.random() < 0.8:
+        b = rng.choice(BASES)
+        fam_at = rng.randint(0, len(items))
+        items.insert(fam_at, ("family", b))
+    for k, n in items:
+        if k == "class":
+            m.klass(n)
+        elif k == "leaf":
+            m.func(n, leaf=True)
+        elif k == "func":
+            m.func(n)
+        else:
+            fam_later = m.family(n, "Sub" + n if rng.random() < 0.8 else None,
+                                 "Low" + n if rng.random() < 0.4 else None,
+                                 "make_" + n.lower(), "Local" + n, rng.random() < 0.35)
+            if fam_later and rng.random() < 0.5:
+                fam_later.pop()()
+        if fam_later and k != "family" and rng.random() < 0.4:
+            fam_later.pop()()
+    while fam_later:
+        fam_later.pop()()
+    if sclass and ("import %s, %s" % (sfuncs[0], sclass) if sfuncs else "") in m.text():
+        # a subclass of a class imported from another file
+        inh = m.klass("Far" + sclass, base=sclass, inherited=smeth)
     m.func("main", nested=True)
     m.toplevel()
-    files["main.py"] = m.text()
+    files[mn + ".py"] = m.text()
     return {"files": files}
 
 
@@ -282,9 +400,16 @@ class JsFile:
         self.funcs = []
         self.imported = list(imported or [])
         self.uid = 0
+        self.rank = {}          # function declarations are hoisted: a body may call a function declared further down
+        self.cur_rank = None
 
     def emit(self, s):
         self.lines.append(s)
+
+    def callees(self):
+        if self.cur_rank is None or not self.rank:
+            return list(self.funcs)
+        return [f for f, r in self.rank.items() if r < self.cur_rank]
 
     def body(self, ind, params, depth, leaf):
         rng = self.rng
@@ -307,8 +432,8 @@ class JsFile:
                     self.emit(pad + "%s = %s;" % (v, e))
                 if e.startswith(cur):
                     cur = v
-            elif r < 0.55 and not leaf and (self.funcs or self.imported) and pool:
-                callee = rng.choice(self.funcs + self.imported)
+            elif r < 0.55 and not leaf and (self.callees() or self.imported) and pool:
+                callee = rng.choice(self.callees() + self.imported)
                 v = pool.pop()
                 self.emit(pad + "var %s = %s(%s);" % (v, callee, cur))
                 mine.append(v)
@@ -335,7 +460,9 @@ class JsFile:
     def func(self, name, leaf=False):
         params = self.rng.choice([["tp"], ["tp"], ["tp", "flag"], ["count", "tp"], ["arg"]])
         self.emit("function %s(%s) {" % (name, ", ".join(params)))
+        self.cur_rank = self.rank.get(name)
         self.body(1, params, 0, leaf)
+        self.cur_rank = None
         self.emit("}")
         self.funcs.append(name)
 
@@ -363,8 +490,12 @@ def gen_js_project(rng, size=7):
     files["lib.js"] = l.text()
     a = JsFile(rng, "app.js", imported=lf[:2])
     a.emit('import { %s } from "./lib.js";' % ", ".join(lf[:2]))
-    for i in range(size):
-        a.func(names.pop() if names else "fn%d" % i, leaf=rng.random() < 0.35)
+    planned = [names.pop() if names else "fn%d" % i for i in range(size)]
+    order = list(planned)
+    rng.shuffle(order)
+    a.rank = {f: i for i, f in enumerate(order)}
+    for f in planned:
+        a.func(f, leaf=rng.random() < 0.35)
     a.emit("function main(tp) {")
     a.body(1, ["tp"], 0, False)
     a.emit("}")
